@@ -332,6 +332,8 @@ Proof.
   - intros H; inversion H; subst. apply ext_of_keep; [apply keep_upd_actor; kp|apply regsame_upd_actor].
   - intros H; inversion H; subst. apply ext_refl.
   - intros H; inversion H; subst. apply ext_refl.
+  - (* SResumeReq *) destruct (a_st a); intros H; inversion H; subst; try apply ext_refl.
+    apply ext_of_keep; [apply keep_deliver_sys|apply regsame_deliver_sys].
 Qed.
 
 Lemma ext_process_user s u e s' o p : process_user roles s u e = (s', o, p) -> ext s s'.
